@@ -21,6 +21,10 @@ meth("cumprod", [{"axis": 0}], [(4,)], cls="other")
 for m in ("argmax", "argmin", "argsort"):
     meth(m, [{}, {"axis": 0}, {"axis": 1}], [(4,), (2, 3)], cls="bare")
 meth("argsort", [{"kind": "stable"}], [(4,)], cls="bare")
+# ties only show the sort algorithm on arrays too long for NumPy's insertion-sort cut-off (16)
+meth("argsort", [{"kind": "stable"}, {"kind": "stable", "axis": 0}, {"kind": "mergesort", "axis": -1}, {"kind": "stable", "axis": None}], [(64,), (40, 2)], gen="dup", cls="bare")
+meth("argsort", [{}], [(64,)], args=(-1, "stable"), gen="dup", cls="bare")
+meth("sort", [{"kind": "stable"}], [(64,)], gen="dup", cls="none", inplace=("a",))
 meth("argpartition", [{}], [(4,)], args=(1,), cls="bare")
 meth("nonzero", [{}], [(4,), (2, 3)], gen="dup", cls="bare")
 meth("all", [{}, {"axis": 0}], [(4,), (2, 3)], gen="dup", cls="bare")
